@@ -145,28 +145,33 @@ def computing_shard(args):
             if st == "bad":
                 part.violation(f"{country}:{sig}", {"kind": "c09gen", "country": country, "bank": b,
                                                     "account": a, "branch": r}, "passes", obs)
-        # draws with one pinned component: whatever is returned must still validate nationally
-        for comp_name in ("account_code", "bank_code", "branch_code"):
-            sp = c.span(comp_name)
-            if not sp:
-                continue
-            for filler_ in ("max", "min", "distinct"):
-                val = bases.bban(c, filler_)[sp[0]:sp[1]]
-                for seed in range(6 if tier == "quick" else 40):
-                    for use_reg in (True, False):
-                        part.count((country, "random-pinned", comp_name, val, seed, use_reg))
-                        k, v = lib.outcome(lambda: lib.IBAN.random(country, random=random.Random(seed),
-                                                                    use_registry=use_reg, **{comp_name: val}))
-                        if k == "ok":
-                            ok, sig, obs = judge_built(country, v)
-                            if not ok:
-                                part.violation(f"{country}:random-with-pinned-{comp_name}:{sig}",
+        # draws with pinned components - every non-empty subset of {bank, branch, account, national
+        # check digits} the country has, each pinned at full width (the pinned check digits are
+        # those of the filler, i.e. usually NOT the computed ones): whatever is returned must still
+        # validate nationally
+        pinnable = [n for n in ("account_code", "bank_code", "branch_code", "national_checksum_digits")
+                    if c.span(n)]
+        for r in range(1, len(pinnable) + 1):
+            for sub in itertools.combinations(pinnable, r):
+                for filler_ in ("max", "min", "distinct"):
+                    pins = {n: bases.bban(c, filler_)[c.span(n)[0]:c.span(n)[1]] for n in sub}
+                    name = "+".join(sub)
+                    nseeds = (6 if tier == "quick" else 40) if r == 1 else (2 if tier == "quick" else 8)
+                    for seed in range(nseeds):
+                        for use_reg in (True, False):
+                            part.count((country, "random-pinned", name, filler_, seed, use_reg))
+                            k, v = lib.outcome(lambda: lib.IBAN.random(country, random=random.Random(seed),
+                                                                        use_registry=use_reg, **pins))
+                            if k == "ok":
+                                ok, sig, obs = judge_built(country, v)
+                                if not ok:
+                                    part.violation(f"{country}:random-with-pinned-{name}:{sig}",
+                                                   {"kind": "c09rand", "country": country, "seed": seed,
+                                                    "use_registry": use_reg, "pins": pins}, "passes", obs)
+                            elif k == "foreign":
+                                part.violation(f"{country}:random-with-pinned-{name}:foreign-exception:{v}",
                                                {"kind": "c09rand", "country": country, "seed": seed,
-                                                "use_registry": use_reg, "pins": {comp_name: val}}, "passes", obs)
-                        elif k == "foreign":
-                            part.violation(f"{country}:random-with-pinned-{comp_name}:foreign-exception:{v}",
-                                           {"kind": "c09rand", "country": country, "seed": seed,
-                                            "use_registry": use_reg, "pins": {comp_name: val}}, "passes", (k, v))
+                                                "use_registry": use_reg, "pins": pins}, "passes", (k, v))
         for seed in range(40 if tier == "quick" else 400):
             for use_reg in (True, False):
                 part.count((country, "random", seed, use_reg))
